@@ -1,9 +1,57 @@
 package main
 
-import "golang.org/x/tools/go/ssa"
+import (
+	"fmt"
 
-// Thread-modular ("volatile") mode; filled in later.
-func (x *Engine) setupConc(fr *Frame, st *State, fs *FuncSpec) {}
+	"golang.org/x/tools/go/ssa"
+)
+
+// Thread-modular ("volatile") mode. For a function verified under a property listed in its `concurrent` clause:
+//   - the locations named by `shared` may be changed by other threads before every atomic access: their state
+//     components are forgotten there (sound for any number of threads and any schedule; nothing is assumed about
+//     what the others write);
+//   - only postconditions tagged with that property are checked, and only such postconditions of callees are used;
+//   - `onwrite[label] loc: cond` is checked in the state right after each successful atomic write to loc
+//     (`new` / `prev` are the written and the overwritten value).
+func (x *Engine) setupConc(fr *Frame, st *State, fs *FuncSpec) {
+	x.sharedKeys = nil
+	pkg := fr.fn.Pkg
+	seen := map[string]bool{}
+	for _, c := range fs.Shared {
+		ev := &Eval{x: x, st: st, old: st, env: fr.env, pkg: pkg}
+		v := x.safeEval(ev, c)
+		if v.Addr == nil {
+			panic(fmt.Sprintf("%s:%d: contract error: shared target is not a location\n    in: %s", c.File, c.Line, c.Text))
+		}
+		if !seen[v.Addr.Key] {
+			seen[v.Addr.Key] = true
+			x.sharedKeys = append(x.sharedKeys, v.Addr.Key)
+		}
+	}
+	x.onWrite = func(st *State, a *Addr, prev, nv, cond, pos string) {
+		for _, c := range fs.OnWrites {
+			if len(c.Props) > 0 && !hasProp(c.Props, x.curProp) {
+				continue
+			}
+			ev := &Eval{x: x, st: fr.entry, old: fr.entry, env: fr.env, pkg: pkg}
+			loc := x.safeEval(ev, &Clause{Expr: c.Loc, Text: c.Text, File: c.File, Line: c.Line})
+			if loc.Addr == nil || loc.Addr.Key != a.Key {
+				continue
+			}
+			env := map[string]Val{}
+			for k, v := range fr.env {
+				env[k] = v
+			}
+			env["new"] = Val{T: nv, Sort: "Int"}
+			env["prev"] = Val{T: prev, Sort: "Int"}
+			ev2 := &Eval{x: x, st: st, old: fr.entry, env: env, pkg: pkg}
+			g := x.safeEvalBool(ev2, c)
+			goal := fmt.Sprintf("(=> (and (= %s %s) %s) %s)", a.Ref, loc.Addr.Ref, cond, g)
+			x.ordinals["onwrite:"+c.Label]++
+			x.obligeNoAssume(st, "onwrite", fmt.Sprintf("%s#%d", c.Label, x.ordinals["onwrite:"+c.Label]), goal, c.Text+" (atomic write at "+pos+")", pos)
+		}
+	}
+}
 
 func (x *Engine) concObligations(fr *Frame, fs *FuncSpec, ret *State, env map[string]Val, pkg *ssa.Package) {
 }
